@@ -27,7 +27,9 @@ Ext(G, p, vis) ==
     ELSE UNION {Ext(G, Append(p, y), vis \cup {y}) : y \in nxt}
 
 \* all maximal simple hypernym chains leaving x (x itself excluded)
-Paths(G, x) == UNION {Ext(G, <<t>>, {x, t}) : t \in Hyp(G, x) \ {x}}
+PathsRaw(G, x) == UNION {Ext(G, <<t>>, {x, t}) : t \in Hyp(G, x) \ {x}}
+\* (tabulated once per graph by Prep below)
+Paths(G, x) == G.P[x]
 
 \* the same with the simulated root appended to every chain
 PathsSim(G, x, sim) ==
@@ -49,9 +51,10 @@ ReachFrom(G, frontier, seen) ==
   LET nxt == (UNION {Hyp(G, y) : y \in frontier}) \ seen IN
     IF nxt = {} THEN seen ELSE ReachFrom(G, nxt, seen \cup nxt)
 \* proper ancestors (x itself only when it lies on a cycle)
-Reach(G, x) == ReachFrom(G, {x}, {})
+ReachRaw(G, x) == ReachFrom(G, {x}, {})
+Reach(G, x) == IF x = Root THEN {} ELSE G.R[x]
 Anc(G, x, sim) == {x} \cup Reach(G, x) \cup (IF sim THEN {Root} ELSE {})
-Cyclic(G) == \E x \in Nodes(G) : x \in Reach(G, x)
+Cyclic(G) == G.cyc
 
 \* BFS distance over hypernym edges; -1 when unreachable
 RECURSIVE Bfs(_, _, _, _, _)
@@ -59,7 +62,18 @@ Bfs(G, frontier, seen, d, y) ==
   IF y \in frontier THEN d
   ELSE LET nxt == (UNION {Hyp(G, z) : z \in frontier}) \ seen IN
          IF nxt = {} THEN -1 ELSE Bfs(G, nxt, seen \cup nxt, d + 1, y)
-Dist(G, x, y) == Bfs(G, {x}, {x}, 0, y)
+DistRaw(G, x, y) == Bfs(G, {x}, {x}, 0, y)
+Dist(G, x, y) == IF x = y THEN 0 ELSE IF x = Root \/ y = Root THEN -1 ELSE G.D[x][y]
+
+\* Prep(g): the graph with its path sets, ancestor sets and distances
+\* tabulated (TLCEval forces TLC to compute each table once).
+Prep(g) ==
+  LET g0 == [n |-> g.n, hyp |-> g.hyp, hypo |-> g.hypo, pos |-> g.pos] IN
+    [n |-> g.n, hyp |-> g.hyp, hypo |-> g.hypo, pos |-> g.pos,
+     P |-> TLCEval([x \in 1..g.n |-> PathsRaw(g0, x)]),
+     R |-> TLCEval([x \in 1..g.n |-> ReachRaw(g0, x)]),
+     D |-> TLCEval([x \in 1..g.n |-> [y \in 1..g.n |-> DistRaw(g0, x, y)]]),
+     cyc |-> TLCEval(\E x \in 1..g.n : x \in ReachRaw(g0, x))]
 
 IsRoot(G, x) == Hyp(G, x) = {}
 \* distance to the simulated root.  Reading A (what "a fake root appended to
@@ -72,7 +86,8 @@ DistRootB(G, x) ==
     IF ds = {} THEN -1 ELSE SeqMin(ds) + 1
 
 DistTo(G, x, c, readingB) ==
-  IF c = Root THEN (IF readingB THEN DistRootB(G, x) ELSE DistRootA(G, x))
+  IF x = c THEN 0
+  ELSE IF c = Root THEN (IF readingB THEN DistRootB(G, x) ELSE DistRootA(G, x))
   ELSE Dist(G, x, c)
 
 Common(G, a, b, sim) == Anc(G, a, sim) \cap Anc(G, b, sim)
